@@ -2,6 +2,7 @@
 import io
 
 from rv.core.runner import WL
+from rv.monitor.poison import poison_text
 from rv.gen import strings as S
 from rv.gen import styles as G
 from rv.model import palette_ref, sgr
@@ -21,7 +22,7 @@ ASSUMPTIONS = ["a flush is issued only at a point that is not inside an escape s
                "the console is wider than the longest generated line, so word-wrap cannot split a line",
                "carriage returns and the control characters Text strips are kept out of the streams",
                "a newline added by flush after the pending partial line is accepted"]
-REQUIRED = ["mon.roundtrip_chars", "mon.proxy_chars", "mon.proxy_histories", "mon.flush_with_pending"]
+REQUIRED = ["mon.live_redirect_sessions", "mon.live_redirect_chars", "mon.roundtrip_chars", "mon.proxy_chars", "mon.proxy_histories", "mon.flush_with_pending"]
 MIN_NONTRIVIAL = {"quick": 4000, "thorough": 200000}
 
 
@@ -54,6 +55,10 @@ def wl_roundtrip(ctx, rng, case_no):
                 layers[i].append(rec)
     console.print(t, crop=False, no_wrap=True, overflow="ignore", end="")
     stream = console.file.getvalue()
+    if rng.random() < 0.2:
+        for line in list(AnsiDecoder().decode(stream)):
+            poison_text(line)        # a caller edits what an earlier decode of the same stream returned
+        ctx.count("mon.result_poisoning")
     decoder = AnsiDecoder()
     lines = list(decoder.decode(stream))
     reader = TV.make_console()
@@ -242,10 +247,119 @@ def wl_fileproxy(ctx, rng, case_no):
     ctx.case_done(("fp", stream, repr(ops)), len(bounds) > 2 and inside_line, wit)
 
 
+def wl_live_redirect(ctx, rng, case_no):
+    """The redirect as programs meet it: a Live / Progress session on a terminal console replaces sys.stdout and
+    sys.stderr; the program print()s and write()s whole lines and fragments to both while the display is updated
+    and refreshed; after the session everything written is on the (modelled) screen above the final frame, per
+    stream in order, every line exactly once, and the real streams are back."""
+    import sys
+    from rich.console import Console
+    from rich.live import Live
+    from rich.progress import Progress
+    from rich.text import Text
+    from rv.model import term
+    kind = rng.choice(["live", "progress"])
+    W, H = 60, 200
+    console = Console(file=io.StringIO(), width=W, height=H, color_system="truecolor", force_terminal=True,
+                      legacy_windows=False, _environ={})
+    pool = S.UniquePool(rng, {"ascii": 1})
+    ops = []
+    for _ in range(rng.randint(1, 10)):
+        r = rng.random()
+        stream = rng.choice(["stdout", "stdout", "stderr"])
+        if r < 0.35:
+            ops.append(["print", stream, pool.word(2, 8)])                      # a whole line
+        elif r < 0.65:
+            ops.append(["write", stream, pool.word(1, 5)])                      # a fragment, no newline
+        elif r < 0.75:
+            ops.append(["write", stream, pool.word(1, 4) + "\n" + pool.word(1, 4)])   # ends one line, starts another
+        elif r < 0.85:
+            ops.append(["flush", stream])
+        elif r < 0.95:
+            ops.append(["refresh"])
+        else:
+            ops.append(["update", pool.word(3, 6)])
+    saved = (sys.stdout, sys.stderr)
+    frame = "FRAME"
+    wit = {"display": kind, "ops": ops}
+    ctx.count("mon.live_redirect_sessions")
+    try:
+        try:
+            if kind == "live":
+                disp = Live(Text(frame), console=console, auto_refresh=False, redirect_stdout=True, redirect_stderr=True)
+            else:
+                disp = Progress(console=console, auto_refresh=False, redirect_stdout=True, redirect_stderr=True)
+            with disp:
+                if kind == "progress":
+                    task = disp.add_task(frame, total=10)
+                for op in ops:
+                    if op[0] == "print":
+                        print(op[2], file=sys.stdout if op[1] == "stdout" else sys.stderr)
+                    elif op[0] == "write":
+                        (sys.stdout if op[1] == "stdout" else sys.stderr).write(op[2])
+                    elif op[0] == "flush":
+                        (sys.stdout if op[1] == "stdout" else sys.stderr).flush()
+                    elif op[0] == "refresh":
+                        disp.refresh()
+                    elif kind == "live":
+                        disp.update(Text(frame + " " + op[1]))
+                    else:
+                        disp.update(task, description=frame + " " + op[1], advance=1)
+        finally:
+            restored = (sys.stdout is saved[0], sys.stderr is saved[1])
+            sys.stdout, sys.stderr = saved
+    except Exception as e:
+        from rv.core.runner import exc_mechanism
+        ctx.violation("live-redirect-raises:" + exc_mechanism(e).split(":", 1)[1], dict(wit, error=repr(e)))
+        ctx.case_done(("lr", repr(ops), kind), False)
+        return
+    if restored != (True, True):
+        ctx.violation("stdio-not-restored-after-session", dict(wit, restored=restored))
+    out = console.file.getvalue()
+    screen = term.Screen(W, H)
+    screen.feed(out)
+    if screen.unknown:
+        ctx.mark_inconclusive("screen model met an unknown sequence: %r" % screen.unknown[:2])
+        return
+    lines = [l for l in screen.lines() if l.strip() and not l.startswith(frame)]
+    shown = "\n".join(lines)
+    wit["screen_lines"] = lines[:40]
+    # per stream: the characters written, in order, are a subsequence of the screen text, every one exactly once
+    for stream in ("stdout", "stderr"):
+        text = ""
+        for op in ops:
+            if op[0] in ("print", "write") and op[1] == stream:
+                text += op[2] + ("\n" if op[0] == "print" else "")
+            elif op[0] == "flush" and op[1] == stream and text and not text.endswith("\n"):
+                text += "\n"       # flush() hands a pending fragment over as a line (as in the fileproxy workload)
+        chars = [c for c in text if c != "\n"]
+        pos = -1
+        for c in chars:
+            ctx.count("mon.live_redirect_chars")
+            n = shown.count(c)
+            if n != 1:
+                ctx.violation("redirected-character-%s:through-%s" % ("lost" if n == 0 else "duplicated", kind),
+                              dict(wit, char=c, stream=stream, occurrences=n))
+                break
+            at = shown.index(c)
+            if at < pos:
+                ctx.violation("redirected-characters-reordered:through-%s" % kind, dict(wit, char=c, stream=stream))
+                break
+            pos = at
+        # a line completed by the program is a line of its own on the screen
+        for piece in text.split("\n")[:-1]:
+            if piece and piece not in lines:
+                ctx.violation("redirected-line-not-on-a-line-of-its-own:through-%s" % kind, dict(wit, line=piece, stream=stream))
+                break
+    nwrites = sum(1 for op in ops if op[0] in ("print", "write"))
+    ctx.case_done(("lr", repr(ops), kind), nwrites >= 2 and any(op[0] == "write" for op in ops), wit)
+
+
 def workloads(tier):
     big = tier == "thorough"
     return [WL("roundtrip", wl_roundtrip, 800000 if big else 40000),
-            WL("fileproxy", wl_fileproxy, 800000 if big else 40000)]
+            WL("fileproxy", wl_fileproxy, 800000 if big else 40000),
+            WL("live_redirect", wl_live_redirect, 100000 if big else 4000)]
 
 
 LEVEL_TEXT = ("Runs the real AnsiDecoder on the real console's truecolor output for generated styled texts and "
